@@ -678,35 +678,43 @@ def Party.endConv (p : Party) : R (Party × ApiOut) :=
     | .ok (p, m) => .ok (p, { send := [m] })
   | .fin => .ok ({ p with st := .plain }, {})
 
+/-- `generateData` for each TLV `startSMP` returned -/
+def Party.sendTlvs (p : Party) : List STlv → List Msg → R (Party × List Msg)
+  | [], acc => .ok (p, acc)
+  | t :: ts, acc =>
+    match p.genData [] (some t) with
+    | .panic => .panic
+    | .ok (p, m) => p.sendTlvs ts (acc ++ [m])
+
+/-- `Authenticate` when `c.smp.saved != nil`: compute the secret ("they started it"), re-run `processSMP`
+    on the saved SMP1 message; `panic("SMP completed on the first message")` if that completes -/
+def Party.answerSMP (p : Party) (t : SmpIn) (secret : Bytes) : R (Party × ApiOut) :=
+  let p0 : Party := { p with secret := some ⟨1 - p.side, p.side, p.ssid, secret⟩ }
+  if (p0.procSMP t).2.complete then .panic else
+  let p1 : Party := { (p0.procSMP t).1 with saved := none }
+  match (p0.procSMP t).2.reply with
+  | none => .ok (p1, { err := (p0.procSMP t).2.err ≠ .none })
+  | some rep =>
+    match p1.genData [] (some rep) with
+    | .panic => .panic
+    | .ok (p2, m) => .ok (p2, { send := [m], err := (p0.procSMP t).2.err ≠ .none })
+
+/-- the state `startSMP` leaves (secret computed "we started it", fresh SMP run, smpState2) -/
+def Party.smpStartState (p : Party) (secret : Bytes) : Party :=
+  let p0 : Party := { p with secret := some ⟨p.side, 1 - p.side, p.ssid, secret⟩ }
+  { p0.newId.1 with smpI := p0.newId.2, question := [], smpSt := 2 }
+
+/-- the TLVs `startSMP` returns: an abort first when an SMP run was in progress -/
+def Party.smpStartTlvs (p : Party) (question : Bytes) : List STlv :=
+  (if p.smpSt ≠ 1 then [STlv.abort] else []) ++ [.smp1 (2 * (p.fresh + 1) + p.side) question]
+
 /-- `Authenticate(question, mutualSecret)` -/
 def Party.authenticate (p : Party) (question secret : Bytes) : R (Party × ApiOut) :=
   if p.st ≠ .enc then .ok (p, { err := true }) else
   match p.saved with
-  | some t =>
-    let p := { p with secret := some ⟨1 - p.side, p.side, p.ssid, secret⟩ }
-    let (p, r) := p.procSMP t
-    if r.complete then .panic else
-    let p := { p with saved := none }
-    match r.reply with
-    | none => .ok (p, { err := r.err ≠ .none })
-    | some rep =>
-      match p.genData [] (some rep) with
-      | .panic => .panic
-      | .ok (p, m) => .ok (p, { send := [m], err := r.err ≠ .none })
+  | some t => p.answerSMP t secret
   | none =>
-    let p := { p with secret := some ⟨p.side, 1 - p.side, p.ssid, secret⟩ }
-    -- startSMP
-    let pre : List STlv := if p.smpSt ≠ 1 then [.abort] else []
-    let (p, i) := p.newId
-    let tlvs := pre ++ [.smp1 i question]
-    let p := { p with smpI := i, question := [], smpSt := 2 }
-    let rec go (p : Party) : List STlv → List Msg → R (Party × List Msg)
-      | [], acc => .ok (p, acc)
-      | t :: ts, acc =>
-        match p.genData [] (some t) with
-        | .panic => .panic
-        | .ok (p, m) => go p ts (acc ++ [m])
-    match go p tlvs [] with
+    match (p.smpStartState secret).sendTlvs (p.smpStartTlvs question) [] with
     | .panic => .panic
     | .ok (p, ms) => .ok (p, { send := ms })
 
